@@ -23,11 +23,14 @@ pub struct CaseOut {
     pub coq: String,
 }
 
-fn exec_case<S, SP>(scn: Scenario<S, SP>, twin: Scenario<S, SP>, id: &str) -> CaseOut
+fn exec_case<S, SP>(scn: Scenario<S, SP>, twin: Scenario<S, SP>, mut rrt_twin: Scenario<S, SP>, free: bool, id: &str) -> CaseOut
 where
     S: State + Clone + Key,
     SP: StateSpace<StateType = S> + 'static,
 {
+    if std::env::var("OXH_TRACE").is_ok() {
+        eprintln!("TRACE {id} params={:?} script={:?} world={}", scn.params, scn.script, scn.desc);
+    }
     // C07: a second, identically constructed and identically driven instance
     let twin_keys: Option<Vec<(Resp, Vec<Vec<u64>>)>> = if scn.params.seed.is_some() {
         log::reset();
@@ -53,6 +56,22 @@ where
                 })
                 .collect(),
         )
+    } else {
+        None
+    };
+    // C17: the same problem, seed and calls given to plain RRT
+    let rrt_paths: Option<Vec<Option<Vec<S>>>> = if scn.params.kind == PlannerKind::Star && scn.params.seed.is_some() {
+        log::reset();
+        rrt_twin.params.kind = PlannerKind::Rrt;
+        let o3 = run_script(
+            &rrt_twin.params,
+            rrt_twin.space.clone(),
+            &rrt_twin.problems,
+            &rrt_twin.checkers,
+            &rrt_twin.script,
+            Duration::from_secs(3600),
+        );
+        Some(o3.into_iter().map(|o| o.path).collect())
     } else {
         None
     };
@@ -98,6 +117,60 @@ where
         .map(|p| p.starts.iter().map(log::intern).collect())
         .collect();
     let lg = log::take();
+    findings.extend(oracle::check_iter(&scn, &outs, &lg));
+    findings.extend(oracle::check_star(&scn, &outs, &lg));
+    findings.extend(oracle::check_prm(&scn, &outs, free));
+    if let Some(rp) = &rrt_paths {
+        let sp = &scn.space.inner;
+        let dist_ok = !lg.dist.values().any(|b| {
+            let d = f64::from_bits(*b);
+            d.is_nan() || d < 0.0
+        });
+        // compare up to the first call where either planner stopped with a path (later calls start
+        // from different trees)
+        for (ci, (o, p1)) in outs.iter().zip(rp.iter()).enumerate() {
+            if matches!(o.resp, Resp::Panic(_)) {
+                break; // a panic drops the seeded generator: later calls are not comparable
+            }
+            match (&o.path, p1) {
+                (Some(ps), Some(pr)) => {
+                    if ps.last().map(|s| s.key()) != pr.last().map(|s| s.key()) {
+                        findings.push(oracle::Finding {
+                            property: "C17",
+                            class: "end_state_differs_from_rrt".into(),
+                            what: "RRT* and RRT (same seed, problem, calls) end at different states".into(),
+                            call: ci,
+                        });
+                    } else if dist_ok {
+                        // root-to-leaf left fold, each edge measured as dist(child, parent)
+                        let len = |p: &Vec<S>| p.windows(2).fold(0.0f64, |acc, w| acc + sp.distance(&w[1], &w[0]));
+                        let (ls, lr) = (len(ps), len(pr));
+                        if !(ls <= lr) {
+                            findings.push(oracle::Finding {
+                                property: "C17",
+                                class: "longer_than_rrt".into(),
+                                what: format!("RRT* path length {ls} exceeds RRT's {lr} for the same seed and problem"),
+                                call: ci,
+                            });
+                        }
+                    }
+                    break;
+                }
+                (None, None) => {}
+                _ => {
+                    if !matches!(o.resp, Resp::Panic(_)) {
+                        findings.push(oracle::Finding {
+                            property: "C17",
+                            class: "stops_at_different_iteration_than_rrt".into(),
+                            what: "only one of RRT* / RRT (same seed, problem, calls) returned a path from this call".into(),
+                            call: ci,
+                        });
+                    }
+                    break;
+                }
+            }
+        }
+    }
     let pv = provenance(&scn.params, &scn.script, &lg);
     if scn.params.seed.is_some() {
         // every draw of a seeded planner must come from its seeded stream (until a call panics)
@@ -184,6 +257,7 @@ fn opts_of_flags(flags: &str) -> GenOpts {
         faults: flags.contains('f'),
         misuse: flags.contains('m'),
         per_iteration: flags.contains('i'),
+        free: flags.contains('o'),
     }
 }
 
@@ -193,14 +267,16 @@ fn run_family(family: &str, seed: u64, index: u64, flags: &str) -> CaseOut {
     let id = format!("{family}:{seed}:{index}:{flags}");
     let mut r = Sm::new(seed, &format!("{family}/{flags}"), index);
     let mut r2 = r.clone();
+    let mut r3 = r.clone();
+    let fr = o.free;
     match family {
-        "table" => exec_case(scen::build_table(&mut r, o), scen::build_table(&mut r2, o), &id),
-        "rv" => exec_case(scen::build_rv(&mut r, o), scen::build_rv(&mut r2, o), &id),
-        "so2" => exec_case(scen::build_so2(&mut r, o), scen::build_so2(&mut r2, o), &id),
-        "so3" => exec_case(scen::build_so3(&mut r, o), scen::build_so3(&mut r2, o), &id),
-        "se2" => exec_case(scen::build_se2(&mut r, o), scen::build_se2(&mut r2, o), &id),
-        "se3" => exec_case(scen::build_se3(&mut r, o), scen::build_se3(&mut r2, o), &id),
-        "css" => exec_case(scen::build_css(&mut r, o), scen::build_css(&mut r2, o), &id),
+        "table" => exec_case(scen::build_table(&mut r, o), scen::build_table(&mut r2, o), scen::build_table(&mut r3, o), fr, &id),
+        "rv" => exec_case(scen::build_rv(&mut r, o), scen::build_rv(&mut r2, o), scen::build_rv(&mut r3, o), fr, &id),
+        "so2" => exec_case(scen::build_so2(&mut r, o), scen::build_so2(&mut r2, o), scen::build_so2(&mut r3, o), fr, &id),
+        "so3" => exec_case(scen::build_so3(&mut r, o), scen::build_so3(&mut r2, o), scen::build_so3(&mut r3, o), fr, &id),
+        "se2" => exec_case(scen::build_se2(&mut r, o), scen::build_se2(&mut r2, o), scen::build_se2(&mut r3, o), fr, &id),
+        "se3" => exec_case(scen::build_se3(&mut r, o), scen::build_se3(&mut r2, o), scen::build_se3(&mut r3, o), fr, &id),
+        "css" => exec_case(scen::build_css(&mut r, o), scen::build_css(&mut r2, o), scen::build_css(&mut r3, o), fr, &id),
         _ => panic!("unknown family {family}"),
     }
 }
@@ -245,6 +321,9 @@ fn planners(args: &[String]) {
     }
     if args.iter().any(|a| a == "--per-iteration") {
         flags.push('i');
+    }
+    if args.iter().any(|a| a == "--free") {
+        flags.push('o');
     }
     match arg(args, "--only-planner") {
         Some("rrt") => flags.push('R'),
